@@ -37,5 +37,7 @@ def main(run):
     run.evaluations += n
     n, _ = P.run_pairs(run, 'rpairs', P.random_pairs(run.seed + 6, 1000 if quick else 20000), ['compose'], 1, rng)
     run.evaluations += n
+    # the mismatch rules (none_is_leaf / namespace) of compose, transform, broadcast, ==, <=, transpose on cross-option pairs
+    run.evaluations += P.run_xspec(run, 'xspec', pairs[:1500 if quick else 30000] + P.random_pairs(run.seed + 8, 800 if quick else 10000), rng)
     run.exhaustive = False
     run.extra['bounds'] = [list(b) for b in bounds + pb]
